@@ -69,6 +69,17 @@ def real_rel(name):
 
 def make_real(spans, rel, form):
     from windpyutils.structures.span_set import SpanSet
+    if form.startswith("copy:"):
+        # the test-suite idiom: V = A.copy(); V.eq_relation = R  - A (built with another relation) is queried first,
+        # so any membership state shared between A and its copy would be stale for V
+        r0 = form.split(":", 1)[1]
+        base = SpanSet(list(spans), eq_relation=real_rel(r0))
+        for x in [(0, 0), (0, 3), (1, 2), (3, 3), (2, 2)]:
+            _ = x in base
+        _ = base <= base
+        v = base.copy()
+        v.eq_relation = real_rel(rel)
+        return v
     if form == "pairs":
         return SpanSet(list(spans), eq_relation=real_rel(rel))
     if form == "gen":
@@ -95,8 +106,13 @@ def operands(tier, seed):
 def check_pair(a_spans, a_rel, b_spans, b_rel, form, u, res):
     """Returns None or (mechanism, summary)."""
     A = make_real(a_spans, a_rel, form)
-    B = make_real(b_spans, b_rel, "pairs" if form != "pairs" else "two_seq")
-    ka, kb = construct_ref(a_spans, a_rel), construct_ref(b_spans, b_rel)
+    B = make_real(b_spans, b_rel, "pairs" if form not in ("pairs",) and not form.startswith("copy:") else
+                  ("two_seq" if form == "pairs" else form))
+    if form.startswith("copy:"):
+        r0 = form.split(":", 1)[1]
+        ka, kb = construct_ref(a_spans, r0), construct_ref(b_spans, r0)   # stored spans were de-duplicated with r0
+    else:
+        ka, kb = construct_ref(a_spans, a_rel), construct_ref(b_spans, b_rel)
     n = 0
     if list(A) != ka or len(A) != len(ka):
         return "construction", f"SpanSet({list(a_spans)}, {a_rel}) holds {list(A)}, definition keeps {ka}"
@@ -150,13 +166,13 @@ def run_shard(spec):
     res = ShardResult()
     ops, extra, u = operands(spec["tier"], spec["seed"])
     rng = common.rng_for(PROP, spec["seed"], "shard", spec["shard"])
-    forms = ["pairs", "two_seq", "gen"]
+    forms = ["pairs", "two_seq", "gen", "pairs", "two_seq", "gen", "copy:exact", "copy:overlaps", "copy:partof", "copy:includes"]
     per_mech = {}
     idx = 0
 
     def do(a, b, exhaustive):
         nonlocal idx
-        form = forms[idx % 3]
+        form = forms[(idx // 3) % len(forms)] if idx % 3 == 0 else forms[idx % 3]
         res.count("operand_pairs")
         if exhaustive:
             res.count("operand_pairs_exhaustive_part")
